@@ -118,7 +118,13 @@ func c13GenStmt(rt *rapid.T, c *c13Case, idx int, fresh *int) c13Stmt {
 	nextU := func() int { *fresh++; return 100 + *fresh }
 	// weights: classes that matter for the property get most of the mass
 	var classes []string
-	if c.Profile == "mostly-valid" {
+	if c.Profile == "new-schema" {
+		// writes only: the reads of such a request come from the schema block
+		classes = []string{
+			"valid-insert", "valid-insert", "insert-id", "unique", "notnull", "check", "multirow-fail", "or-ignore", "or-replace",
+			"update", "update-unique", "delete", "syntax", "no-table", "returning", "empty", "param-insert", "param-count", "deferred-fk",
+		}
+	} else if c.Profile == "mostly-valid" {
 		// long runs of succeeding statements; failures only where the state makes them fail
 		classes = []string{
 			"valid-insert", "valid-insert", "insert-id", "or-ignore", "or-replace", "update", "delete",
@@ -248,11 +254,11 @@ func c13GenCase(rt *rapid.T) c13Case {
 		FK:   rapid.IntRange(0, 3).Draw(rt, "fk") > 0,
 	}
 	c.ROE = rapid.IntRange(0, 2).Draw(rt, "roe") == 0
-	c.Profile = rapid.SampledFrom([]string{"mixed", "mixed", "mostly-valid"}).Draw(rt, "profile")
+	c.Profile = rapid.SampledFrom([]string{"mixed", "mixed", "mostly-valid", "new-schema"}).Draw(rt, "profile")
 	c.Init = rapid.SliceOfNDistinct(rapid.IntRange(1, 5), 0, 4, rapid.ID[int]).Draw(rt, "init")
 	n := rapid.IntRange(1, 8).Draw(rt, "n")
 	fresh := 0
-	wrapExplicit := !c.Tx && rapid.IntRange(0, 2).Draw(rt, "wrap") == 0
+	wrapExplicit := !c.Tx && c.Profile != "new-schema" && rapid.IntRange(0, 2).Draw(rt, "wrap") == 0
 	if wrapExplicit {
 		c.Stmts = append(c.Stmts, c13Stmt{SQL: "BEGIN", Class: "begin"})
 	}
@@ -267,6 +273,38 @@ func c13GenCase(rt *rapid.T) c13Case {
 	}
 	if wrapExplicit && rapid.IntRange(0, 5).Draw(rt, "wrapcommit") > 0 {
 		c.Stmts = append(c.Stmts, c13Stmt{SQL: "COMMIT", Class: "commit"})
+	}
+	if c.Profile == "new-schema" {
+		// a block that creates schema and then reads from it: these reads do
+		// not compile against the schema that exists before the request
+		var block []c13Stmt
+		switch rapid.IntRange(0, 3).Draw(rt, "schemablock") {
+		case 0, 1:
+			block = []c13Stmt{
+				{SQL: `CREATE TABLE n (id INTEGER PRIMARY KEY, w TEXT)`, Class: "create-schema"},
+				{SQL: `INSERT INTO n(w) VALUES('n1'),('n2'),('n3')`, Class: "insert-new-schema", Data: true},
+				{SQL: `SELECT id, w FROM n ORDER BY id`, Class: "select-new-schema", Select: true},
+			}
+			if rapid.Bool().Draw(rt, "second-read") {
+				block = append(block, c13Stmt{SQL: `UPDATE n SET w='u' WHERE id=2`, Class: "insert-new-schema", Data: true},
+					c13Stmt{SQL: `SELECT count(*), max(w) FROM n`, Class: "select-new-schema", Select: true})
+			}
+		case 2:
+			block = []c13Stmt{
+				{SQL: `CREATE VIEW nv AS SELECT id, v FROM t WHERE id > 0`, Class: "create-schema"},
+				{SQL: `SELECT id, v FROM nv ORDER BY id`, Class: "select-new-schema", Select: true},
+			}
+		case 3:
+			block = []c13Stmt{
+				{SQL: `ALTER TABLE t ADD COLUMN z DEFAULT 5`, Class: "create-schema"},
+				{SQL: `UPDATE t SET z=z+1 WHERE id<=2`, Class: "insert-new-schema", Data: true},
+				{SQL: `SELECT id, z FROM t ORDER BY id`, Class: "select-new-schema", Select: true},
+			}
+		}
+		at := rapid.IntRange(0, len(c.Stmts)).Draw(rt, "blockat")
+		stmts := append([]c13Stmt{}, c.Stmts[:at]...)
+		stmts = append(stmts, block...)
+		c.Stmts = append(stmts, c.Stmts[at:]...)
 	}
 	return c
 }
@@ -785,7 +823,7 @@ func c13Check(rt *rapid.T, rec *vstat.Rec, c c13Case, runReal c13RealRunner) {
 
 func TestVerif_C13_DB(t *testing.T) {
 	rec := vstat.New(t, "C13", "db",
-		"rapid: requests of 1-8 statements (valid inserts/updates/deletes, UNIQUE/NOT NULL/CHECK/PK/FK violations incl. deferred FK failing at COMMIT, multi-row inserts failing midway, syntax errors and unknown tables/columns (prepare failures), wrong parameter counts, RETURNING with and without force-query, SELECTs incl. failing at prepare and at step, empty statements, explicit BEGIN/COMMIT/ROLLBACK and /db/load-style multi-statement strings when the transaction flag is off) x transaction flag x rollback-on-error x foreign keys on/off x initial rows, through DB.Execute and DB.Request on a WAL file database; non-trivial = the oracle sees a failing statement that is not the last non-empty one; distinct by full request text and flags")
+		"rapid: requests of 1-8 statements (valid inserts/updates/deletes, UNIQUE/NOT NULL/CHECK/PK/FK violations incl. deferred FK failing at COMMIT, multi-row inserts failing midway, syntax errors and unknown tables/columns (prepare failures), wrong parameter counts, RETURNING with and without force-query, SELECTs incl. failing at prepare and at step, requests whose only reads are from a table/view/column created earlier in the same request (CREATE TABLE / CREATE VIEW / ALTER TABLE ADD COLUMN, then SELECT), empty statements, explicit BEGIN/COMMIT/ROLLBACK and /db/load-style multi-statement strings when the transaction flag is off) x transaction flag x rollback-on-error x foreign keys on/off x initial rows, through DB.Execute and DB.Request on a WAL file database; non-trivial = the oracle sees a failing statement that is not the last non-empty one; distinct by full request text and flags")
 	rapid.Check(t, func(rt *rapid.T) {
 		defer c13Guard(rec)
 		c := c13GenCase(rt)
@@ -856,7 +894,7 @@ func (e *c13StoreEnv) exec(tx bool, stmts ...string) ([]*command.ExecuteQueryRes
 // verifies it against the raw driver's view of a freshly prepared database.
 func (e *c13StoreEnv) reset(c c13Case) error {
 	e.exec(false, "ROLLBACK") // close whatever an earlier case left open; error ignored
-	stmts := []string{"DROP TABLE IF EXISTS ch", "DROP TABLE IF EXISTS p", "DROP TABLE IF EXISTS t"}
+	stmts := []string{"DROP VIEW IF EXISTS nv", "DROP TABLE IF EXISTS n", "DROP TABLE IF EXISTS ch", "DROP TABLE IF EXISTS p", "DROP TABLE IF EXISTS t"}
 	stmts = append(stmts, c13SetupStmts(c)...)
 	rs, err := e.exec(true, stmts...)
 	if err != nil {
